@@ -42,3 +42,42 @@ def tr_rpcqueue(repo, work, coq):
         return False, info
     info['discharged'] = 1
     return True, info
+
+
+def _ensure(coq, rel):
+    v = os.path.join(coq, 'theories', rel + '.v')
+    vo = os.path.join(coq, 'theories', rel + '.vo')
+    if not os.path.exists(vo) or os.path.getmtime(vo) < os.path.getmtime(v):
+        subprocess.run(['timeout', '600', 'coqc', '-Q', 'theories', 'PS', 'theories/' + rel + '.v'], cwd=coq,
+                       stdout=subprocess.PIPE, stderr=subprocess.STDOUT)
+
+
+def tr_sendsites(repo, work, coq):
+    """every channel send to a PubSub rendezvous channel in the non-test source -> ShutdownGen.v (gen_sites)
+    + obligation: every site is guarded by ctx.Done() / default (all_guarded gen_sites = true) and the inventory is not empty"""
+    info = {'obligations': 1, 'discharged': 0, 'source': repo + '/*.go (non-test)'}
+    _ensure(coq, 'Model/Shutdown')
+    p = subprocess.run(['go', 'run', './sendsites', repo], cwd=os.path.join(VERIF, 'tools'),
+                       env=GOENV, stdout=subprocess.PIPE, stderr=subprocess.PIPE, text=True)
+    gen = os.path.join(work, 'ShutdownGen.v')
+    if p.returncode != 0:
+        info['error'] = 'translator failed: ' + p.stderr[-1500:]
+        return False, info
+    open(gen, 'w').write(p.stdout)
+    info['generated_sites'] = p.stdout.count('s_fn :=')
+    info['unguarded'] = [l.strip() for l in p.stdout.splitlines() if 's_guarded := false' in l]
+    rc, out = _coqc(gen, coq)
+    if rc != 0:
+        info['error'] = 'generated file does not compile: ' + out[-1500:]
+        return False, info
+    obl = os.path.join(work, 'ShutdownGenObl.v')
+    open(obl, 'w').write('From Coq Require Import List Bool Arith.\nFrom PS Require Import Model.Shutdown.\nFrom VG Require Import ShutdownGen.\n'
+                         'Lemma gen_all_guarded : all_guarded gen_sites = true.\nProof. reflexivity. Qed.\n'
+                         'Lemma gen_nonempty : Nat.leb 25 (length gen_sites) = true.\nProof. reflexivity. Qed.\n')
+    rc, out = _coqc(obl, coq)
+    if rc != 0:
+        info['error'] = ('obligation all_guarded gen_sites = true no longer checks: these sends to the event loop have no ctx.Done() / default arm: '
+                         + '; '.join(info['unguarded']) + ' || ' + out[-600:])
+        return False, info
+    info['discharged'] = 1
+    return True, info
